@@ -945,8 +945,23 @@ def AgreeAt (f : Str) (st st' : Stack) : Prop :=
 
 theorem agreeAt_refl (f : Str) (st : Stack) : AgreeAt f st st := ⟨rfl, rfl⟩
 
-theorem agreeAt_restrict (f : Str) (st : Stack) : AgreeAt f (restrictStack f st) st := by
-  constructor <;> simp [restrictStack, List.filter_filter]
+theorem agreeAt_restrict {f : Str} {loaded : List Str} (hf : f ∈ loaded) (st : Stack) :
+    AgreeAt f (restrictStack loaded st) st := by
+  constructor
+  · simp only [restrictStack, List.filter_filter]
+    congr 1
+    funext d
+    by_cases hd : (d.flavor == f) = true
+    · have : d.flavor = f := by simpa using hd
+      simp [this, hf]
+    · simp [hd]
+  · simp only [restrictStack, List.filter_filter]
+    congr 1
+    funext t
+    by_cases hd : (t.flavor == f) = true
+    · have : t.flavor = f := by simpa using hd
+      simp [this, hf]
+    · simp [hd]
 
 theorem any_filter_irrelevant {α : Type} (l : List α) (q p : α → Bool) (h : ∀ x, p x = true → q x = true) :
     l.any p = (l.filter q).any p := by
@@ -1099,9 +1114,10 @@ theorem find_view_congr {C C' : Ctx} {r : Req} (ho : C.ord = C'.ord) (hg : C.glo
     find C r vro = find C' r vro := by
   simp only [find, walk_view_congr ho hg hdb hdl]
 
-/-- the cache view of a database agrees with the database on the native flavor, whatever was accepted -/
-theorem cacheView_agree_native (native : Str) (accepted : List Bool) (db : Db) :
-    ViewsAgree native (cacheView native accepted db) db := by
+/-- the cache view of a database agrees with the database on every flavor the process loads,
+whatever was accepted -/
+theorem cacheView_agree {f : Str} {loaded : List Str} (hf : f ∈ loaded) (accepted : List Bool) (db : Db) :
+    ViewsAgree f (cacheView loaded accepted db) db := by
   induction db generalizing accepted with
   | nil => cases accepted <;> exact .nil
   | cons st rest ih =>
@@ -1114,10 +1130,10 @@ theorem cacheView_agree_native (native : Str) (accepted : List Bool) (db : Db) :
       refine .cons ?_ (ih as)
       cases a
       · exact agreeAt_refl _ _
-      · exact agreeAt_restrict _ _
+      · exact agreeAt_restrict hf _
 
 /-- when no stack's cache was accepted the cache view is the database -/
-theorem cacheView_all_rebuilt (native : Str) (accepted : List Bool) (db : Db)
+theorem cacheView_all_rebuilt (native : List Str) (accepted : List Bool) (db : Db)
     (h : ∀ b ∈ accepted, b = false) : cacheView native accepted db = db := by
   induction db generalizing accepted with
   | nil => cases accepted <;> simp [cacheView]
@@ -1554,5 +1570,31 @@ theorem simpleCmp_good : GoodOrd simpleCmp where
     rw [cmpComps_antisymm]
     omega
   trans a b c h1 h2 := cmpComps_trans _ _ _ h1 h2
+
+/-! ## the flavor loop through two views -/
+
+theorem resolveFlavor_congr {C C' : Ctx} {r : Req} (keep : Bool)
+    (hfind : ∀ vro, find C r vro = find C' r vro) (fuel : Nat) (vro : List Str) :
+    resolveFlavor C r keep fuel vro = resolveFlavor C' r keep fuel vro := by
+  induction fuel generalizing vro with
+  | zero => rfl
+  | succ fuel ih =>
+    unfold resolveFlavor
+    simp only [hfind, ih]
+
+/-- the flavor loop gives the same answer through two contexts whose views agree on every flavor it visits -/
+theorem resolve_view_congr {C C' : Ctx} (r : Req) (keep : Bool) (vro : List Str) (flavors : List Str)
+    (ho : C.ord = C'.ord) (hg : C.globalTags = C'.globalTags)
+    (hdb : ∀ f ∈ flavors, ViewsAgree f C.db C'.db) (hdl : ∀ f ∈ flavors, ViewsAgree f C.dbLatest C'.dbLatest) :
+    resolve C r keep vro flavors = resolve C' r keep vro flavors := by
+  induction flavors with
+  | nil => rfl
+  | cons fl rest ih =>
+    unfold resolve
+    have hfl : ∀ v, find C { r with flavor := fl } v = find C' { r with flavor := fl } v := by
+      intro v
+      exact find_view_congr (r := { r with flavor := fl }) ho hg (hdb fl (by simp)) (hdl fl (by simp)) v
+    rw [resolveFlavor_congr keep hfl,
+      ih (fun f hf => hdb f (List.mem_cons_of_mem _ hf)) (fun f hf => hdl f (List.mem_cons_of_mem _ hf))]
 
 end EupsModel.Vro
